@@ -1329,6 +1329,26 @@ _ufunc1('int32', sym.trunc, 'i')
 _LN = z3.Function('ln', z3.RealSort(), z3.RealSort())
 
 
+_LOG2 = z3.Function('log2', z3.RealSort(), z3.RealSort())
+
+
+@_np('log2')
+def _log2(I, args, kw):
+    """uninterpreted log2 (contracts supply the facts they need)"""
+    x = args[0]
+    if isinstance(x, SArr):
+        x = x.frozen()
+        return SArr(x.shape, lambda q: _LOG2(sym.to_z3(sym.to_real(x.get(q)))), 'f', tag='log2', mask=x.mask)
+    if not is_sym(x):
+        import math
+        if x <= 0:
+            raise Unsupported('log2 of a non-positive constant')
+        v = math.log2(float(x))
+        if v == int(v):
+            return Fraction(int(v))
+    return _LOG2(sym.to_z3(sym.to_real(x)))
+
+
 @_np('log')
 def _log(I, args, kw):
     """uninterpreted ln; for a concrete argument its sign is a known fact; contracts supply what else they need"""
